@@ -766,7 +766,31 @@ def main(ctx):
     if corpus_dir.exists():
         for p in sorted(corpus_dir.glob('*.json')):
             batch.append(('corpus', p.name, json.loads(p.read_text())['history']))
-    wit = witness_histories(ctx, fails or [], cat, cfgq, cfg['effects'] if cfg else [])
+    # probes: the same concrete histories for every (memoised query, effect) pair whose fields
+    # overlap, every slot argument and every derivation - also when the clause is satisfied
+    probes = []
+    if cfg is not None:
+        have = {(f['kind'], f['a'], f['b']) for f in (fails or [])}
+
+        def overlap(ps, qs):
+            return any(a[0] == b[0] and (a[1] is None or b[1] is None or a[1] == b[1]) for a in ps for b in qs)
+        for e in cfg['effects']:
+            for q in cfg['queries']:
+                kq = 'stale-lru' if q['lru'] is not None else ('stale-slot' if q['slot'] is not None else None)
+                if kq and overlap(q['reads'], e['writes']) and (kq, q['name'], e['name']) not in have:
+                    probes.append({'kind': kq, 'a': q['name'], 'b': e['name'], 'model_confirms': False,
+                                   'probe': True})
+        for q in cfg['queries']:
+            if q['slot'] is not None:
+                for arg in q['relevant']:
+                    if ('slot-key', q['name'], arg) not in have:
+                        probes.append({'kind': 'slot-key', 'a': q['name'], 'b': arg, 'model_confirms': False,
+                                       'probe': True})
+        for d in cfg['derivs']:
+            if ('share', d['name'], '') not in have and d['name'] in DERIVS:
+                probes.append({'kind': 'share', 'a': d['name'], 'b': '', 'model_confirms': False, 'probe': True})
+    wit = witness_histories(ctx, (fails or []) + probes, cat, cfgq, cfg['effects'] if cfg else [])
+    ctx.notes['probe_pairs'] = len(probes)
     for f, h in wit:
         batch.append(('witness', f, h))
     n_rand = 150 if ctx.tier == 'quick' else 1500
